@@ -237,3 +237,59 @@ func ScratchBin(name string) string {
 	}
 	return filepath.Join(d, name)
 }
+
+// Play runs the program with the given arguments on a rows x cols terminal, waits for the
+// first page, types the keys one by one (each after the output has been quiet for a while)
+// and returns every frame written. ok is false (with a note) when no pseudo-terminal is
+// available; exited tells whether the program ended on its own before the keys were done.
+func Play(bin string, args, env []string, rows, cols int, keys string) (frames []string, raw string, exited bool, err error) {
+	s, err := Start(bin, args, env, rows, cols)
+	if err != nil {
+		return nil, "", false, err
+	}
+	s.WaitFor(0, 90*time.Second, func(after string) bool { _, fr := Frames(after); return len(fr) >= 2 })
+	s.WaitQuiet(300*time.Millisecond, 20*time.Second)
+	for i := 0; i < len(keys) && !s.Exited(); i++ {
+		s.Send([]byte{keys[i]})
+		s.WaitQuiet(200*time.Millisecond, 20*time.Second)
+	}
+	s.WaitQuiet(300*time.Millisecond, 20*time.Second)
+	exited = s.Exited()
+	raw = s.Output()
+	_, frames = Frames(raw)
+	s.Close()
+	return frames, raw, exited, nil
+}
+
+// Prepare builds the program and exports the routes of a world; it returns the binary and
+// the environment for Start / Play, or skip=true with a reason.
+func Prepare(w *world.W, tag string) (bin string, env []string, skip string) {
+	overlay, scratch := os.Getenv("VERIF_OVERLAY"), os.Getenv("VERIF_SCRATCH")
+	repo := os.Getenv("VERIF_REPO")
+	if repo == "" {
+		repo = "/repo"
+	}
+	if overlay == "" || scratch == "" {
+		return "", nil, "VERIF_OVERLAY / VERIF_SCRATCH not set"
+	}
+	if _, err := os.Stat("/dev/ptmx"); err != nil {
+		return "", nil, "no pseudo-terminal available in this environment"
+	}
+	bin = filepath.Join(scratch, "servitor-e2e-"+tag)
+	if err := Build(repo, overlay, "", bin); err != nil {
+		return "", nil, "the program does not build with this overlay: " + err.Error()
+	}
+	routes := filepath.Join(scratch, "e2e-routes-"+tag+".json")
+	if err := ExportWorld(w, routes); err != nil {
+		return "", nil, "cannot export the world: " + err.Error()
+	}
+	home := filepath.Join(scratch, "e2e-home-"+tag)
+	os.MkdirAll(filepath.Join(home, "servitor"), 0o755)
+	vdump := filepath.Join(os.Getenv("VERIF_DIR"), "bin", "vdump")
+	if os.Getenv("VERIF_DIR") == "" {
+		vdump = "/verif/bin/vdump"
+	}
+	os.WriteFile(filepath.Join(home, "servitor", "config.toml"), []byte("[media]\nhook = [\""+vdump+"\", \"%url\"]\n"), 0o644)
+	env = append(os.Environ(), "VERIF_E2E_WORLD="+routes, "XDG_CONFIG_HOME="+home, "TERM=xterm")
+	return bin, env, ""
+}
